@@ -38,7 +38,7 @@ def catalog(M, tier, settings=False, faults=False):
     out, seen = [], set()
     cfgs = models.et_configs(M, tier) + models.dt_configs(M, tier)
     if faults:
-        cfgs = cfgs + models.et_fault_configs(M, tier)
+        cfgs = cfgs + models.et_fault_configs(M, tier) + models.dt_fault_configs(M, tier)
     for cfg in cfgs:
         try:
             inv, fake, blocks = models.discover_blocks(M, cfg)
@@ -368,6 +368,16 @@ class SensorHarness(Harness):
             return outcome
         if self.mode == "C12":
             self._check_reference(ex, G, cmd, s, payload, nbytes, got, outcome)
+        if self.mode == "C11" and outcome == "value" and not tab and not pub:
+            # the other half of totality: registers that cannot be interpreted (impossible date, out-of-range
+            # schedule / eco-mode fields) are reported as None / ValueError, not as a value
+            cls = cls_name(s)
+            w = WIDTH.get(cls)
+            pos = position(cmd, s, G)
+            if w is not None and pos >= 0 and pos + w <= nbytes:
+                ref = reference(cls, s, [to_z3(x) for x in payload[pos:pos + w]])
+                if ref is not None and ref[0] in ("group", "datetime"):
+                    ex.check(ref[1], "registers that cannot be interpreted are reported as a value")
         return outcome
 
     def _check_reference(self, ex, G, cmd, s, payload, nbytes, got, outcome):
@@ -377,7 +387,11 @@ class SensorHarness(Harness):
             return
         pos = position(cmd, s, G)
         if pos < 0 or pos + w > nbytes:
-            return  # not completely inside the block: C14's business (ES short blocks: C11 only)
+            # not completely inside the block (that this happens at all is C14's subject; ES short blocks: C11): a
+            # reading made of registers that were not fetched is not "the reading of its own registers"
+            if self.ent["kind"] == "runtime" and outcome == "value":
+                ex.fail("a value is reported although the sensor's registers are not (completely) inside the block that was read")
+            return
         b = [to_z3(x) for x in payload[pos:pos + w]]
         ref = reference(cls, s, b)
         if ref is None:
@@ -509,6 +523,14 @@ class SensorHarness(Harness):
                 viol = f"{where}: read past the end of the fetched window"
         if self.mode == "C12" and viol is None:
             viol = self._concrete_reference(R, cmd, s, payload, nbytes, got, outcome, where)
+        if self.mode == "C11" and viol is None and outcome == "value" and not tab and not pub:
+            cls = cls_name(s)
+            w = WIDTH.get(cls)
+            pos = position(cmd, s, R)
+            if w is not None and pos >= 0 and pos + w <= nbytes:
+                ref = reference(cls, s, [z3.IntVal(x) for x in payload[pos:pos + w]])
+                if ref is not None and ref[0] in ("group", "datetime") and not z3.is_true(z3.simplify(ref[1])):
+                    viol = f"{where}: uninterpretable registers reported as a value"
         return {"outcome": outcome, "violation": viol, "observed": f"{where} payload={payload.hex()[:80]}.. -> {got!r} reads={reads[:4]}"}
 
     def _concrete_reference(self, R, cmd, s, payload, nbytes, got, outcome, where):
@@ -520,6 +542,8 @@ class SensorHarness(Harness):
             return None
         pos = position(cmd, s, R)
         if pos < 0 or pos + w > nbytes:
+            if self.ent["kind"] == "runtime" and outcome == "value":
+                return f"{where}: value reported from registers outside the block that was read"
             return None
         b = payload[pos:pos + w]
         U = lambda x: int.from_bytes(x, "big")  # noqa: E731
